@@ -193,3 +193,80 @@ package keeper
 //@   ensures hop1_cp: err == nil && sender != pa1 && sender != pa2 && pa1 != pa2 && rcpt != pa1 && rcpt != pa2 ==>
 //@           (X1*DEC_ONE + FEEF*sold) * bal(pa1, std) >= X1*Y1*DEC_ONE
 //@ end
+
+// ---------------------------------------------------------------------------------------------
+// Liquidity (C01 share value, C02 settlement)
+
+//@ define MOD = macc("coinswap")
+//@ define poolWF(p, d) = p.LptDenom != STD && p.LptDenom != d && d != STD && p.EscrowAddress == bech(poolAddrOf(p))
+//@ define taxOf(p) = (p.PoolCreationFee.Amount * raw(p.TaxRate)) div DEC_ONE
+// deposit of (std: a, tok: t) by s into pool account p, then mint m of lpt to the module and pass it on to s
+//@ define depositLegs(b, s, p, std, a, tok, t) = credit(credit(debit(debit(b, s, std, a), s, tok, t), p, std, a), p, tok, t)
+//@ define mintLegs(b, s, lpt, m) = credit(debit(credit(b, MOD, lpt, m), MOD, lpt, m), s, lpt, m)
+//@ define burnLegs(b, s, lpt, m) = debit(credit(debit(b, s, lpt, m), MOD, lpt, m), MOD, lpt, m)
+//@ define feeLegs(b, s, fc, fd, f, tax) = debit(credit(debit(credit(debit(b, s, fd, f), MOD, fd, f), MOD, fd, tax), fc, fd, tax), MOD, fd, f - tax)
+
+// Pool-creation fee: tax = floor(fee * rate) to the fee collector, the rest burned, module nets to zero.
+//@ func Keeper.DeductPoolCreationFee
+//@   property C02, C16
+//@   returns err
+//@   requires paramsStored
+//@   let p = PARAMS
+//@   let fd = p.PoolCreationFee.Denom
+//@   let F = p.PoolCreationFee.Amount
+//@   let tax = taxOf(p)
+//@   modifies bal, supply
+//@   ensures ledger: err == nil ==> bal == feeLegs(old(bal), creator, macc(k.feeCollectorName), fd, F, tax)
+//@   ensures burned: err == nil ==> supply == addcoin(old(supply), fd, 0 - (F - tax))
+//@   ensures split:  0 <= tax && tax <= F
+//@   nopanic C16
+//@ end
+
+//@ func Keeper.addLiquidity
+//@   property C02
+//@   returns minted, err
+//@   let pa = addr(poolAddress)
+//@   requires standardCoin.Amount >= 0 && token.Amount >= 0 && mintLiquidityAmt >= 0
+//@   modifies bal, supply
+//@   ensures ledger: err == nil ==> bal == mintLegs(depositLegs(old(bal), sender, pa, standardCoin.Denom, standardCoin.Amount, token.Denom, token.Amount),
+//@                                                sender, lptDenom, mintLiquidityAmt)
+//@   ensures minted: err == nil ==> supply == addcoin(old(supply), lptDenom, mintLiquidityAmt) && minted == coin(lptDenom, mintLiquidityAmt)
+//@   ensures distinct: err == nil ==> standardCoin.Denom != token.Denom
+//@ end
+
+//@ func Keeper.AddLiquidity
+//@   property C01, C02
+//@   returns minted, err
+//@   requires paramsStored
+//@   requires msg.MaxToken.Amount > 0 && msg.ExactStandardAmt > 0 && msg.MinLiquidity >= 0
+//@   let std = STD
+//@   let tok = msg.MaxToken.Denom
+//@   let pid = types.GetPoolId(tok)
+//@   let existed = has(pools, pid)
+//@   let pool = get(pools, pid)
+//@   requires existed ==> poolWF(pool, tok)
+//@   let sender = addr(msg.Sender)
+//@   let pa = poolAddrOf(pool)
+//@   let lpt = pool.LptDenom
+//@   let S = bal(pa, std)
+//@   let T = bal(pa, tok)
+//@   let L = supply(lpt)
+//@   let dS = msg.ExactStandardAmt
+//@   modifies bal, supply, pools, lptIndex, nextSeq
+//@   ensures min_liquidity: err == nil ==> minted.Amount >= msg.MinLiquidity
+//@   ensures existing_ledger: err == nil && existed ==> minted.Denom == lpt && bal(pa, tok) - T <= msg.MaxToken.Amount && bal(pa, tok) - T >= 0
+//@        && (sender != pa && MOD != pa && MOD != sender ==>
+//@            bal == mintLegs(depositLegs(old(bal), sender, pa, std, dS, tok, bal(pa, tok) - T), sender, lpt, minted.Amount))
+//@        && supply == addcoin(old(supply), lpt, minted.Amount)
+//@        && pools == old(pools) && lptIndex == old(lptIndex) && nextSeq == old(nextSeq)
+//@   ensures share: err == nil && existed && S > 0 && T > 0 && L > 0 && sender != pa && MOD != pa ==>
+//@           bal(pa, std) * bal(pa, tok) * L * L >= S * T * supply(lpt) * supply(lpt)
+//@   ensures exact: err == nil && existed && S > 0 && T > 0 && L > 0 && sender != pa && MOD != pa ==>
+//@           bal(pa, std) == S + dS && bal(pa, tok) == T + (T*dS) div S + 1 && supply(lpt) == L + (L*dS) div S
+//@   ensures create_ledger: err == nil && !existed ==> has(pools, pid) && minted.Amount == dS
+//@        && minted.Denom == get(pools, pid).LptDenom
+//@        && (get(pools, pid).LptDenom != PARAMS.PoolCreationFee.Denom ==>
+//@            supply == addcoin(addcoin(old(supply), PARAMS.PoolCreationFee.Denom, 0 - (PARAMS.PoolCreationFee.Amount - taxOf(PARAMS))), get(pools, pid).LptDenom, dS))
+//@        && bal == mintLegs(depositLegs(feeLegs(old(bal), sender, macc(k.feeCollectorName), PARAMS.PoolCreationFee.Denom, PARAMS.PoolCreationFee.Amount, taxOf(PARAMS)),
+//@                                       sender, poolAddrOf(get(pools, pid)), std, dS, tok, msg.MaxToken.Amount), sender, get(pools, pid).LptDenom, dS)
+//@ end
